@@ -201,8 +201,8 @@ class AugmentedFSSH(TrajectorySH):
                 self.tracer.record_event("collapse", {
                     "time" : self.time,
                     "removed" : i,
-                    "gamma" : gamma[i],
-                    "eta" : eta
+                    "gamma" : float(gamma[i]),
+                    "eta" : eta.tolist()
                     })
 
     def hop_update(self, hop_from, hop_to):
